@@ -1501,6 +1501,19 @@ func (vc *VC) execInstr(fr *Frame, ins ssa.Instruction, st *State) {
 	case *ssa.RunDefers:
 		vc.runDefers(fr, st, pos)
 	case *ssa.Go:
+		// `go f(args)` where f is under a contract flagged `go_summary`: the spawned call is summarised by f's
+		// contract at the point of the go statement (its ghost history effects describe what has been
+		// INITIATED; heap effects per its modifies clause). Other go statements are not executed.
+		if callee := ins.Call.StaticCallee(); callee != nil && !ins.Call.IsInvoke() {
+			if con := vc.eng.cs.Funcs[funcKey(callee)]; con != nil && con.Flags["go_summary"] {
+				var args []Val
+				for _, a := range ins.Call.Args {
+					args = append(args, vc.value(fr, a))
+				}
+				vc.applyContract(fr, st, callee, con, args, pos, vc.srcText(fn, ins))
+				return
+			}
+		}
 		vc.note("go statement at %s:%d not executed; spawned body must be verified separately", shortFile(pos.Filename), pos.Line)
 	case *ssa.Send:
 		vc.sendEffect(fr, st, ins, pos)
